@@ -1,12 +1,13 @@
 #!/bin/sh
 # run every claimed check (quick tier by default) on the current tree and validate the evidence files
+# usage: run_all.sh [tier] [parallel jobs, default 1]
 cd "$(dirname "$0")/.."
 tier="${1:-quick}"
-rc=0
-for p in $(python3 -c "import json;print(' '.join(c['property_id'] for c in json.load(open('MANIFEST.json'))['checks']))"); do
-  out=$(./check $p --tier $tier 2>&1); r=$?
-  echo "$p exit=$r $(echo "$out" | tail -1 | cut -c1-150)"
-  [ $r -ne 0 ] && rc=1
-done
+jobs="${2:-1}"
+props=$(python3 -c "import json;print(' '.join(c['property_id'] for c in json.load(open('MANIFEST.json'))['checks']))")
+mkdir -p .work
+rm -f .work/run_all.*.out
+echo $props | tr ' ' '\n' | xargs -P "$jobs" -I{} sh -c './check {} --tier '"$tier"' > .work/run_all.{}.out 2>&1; echo "{} exit=$? $(tail -1 .work/run_all.{}.out | cut -c1-150)"' | tee .work/run_all.summary
 python3-vt tools/validate.py | grep -v " ok$"
-exit $rc
+if grep -qv "exit=0 " .work/run_all.summary; then exit 1; fi
+exit 0
